@@ -7,9 +7,9 @@ import WowSrp.Gen.Constants
 namespace WowSrp
 
 /-- C16: hash = H(client salt | H(server salt | remapped digits)) -/
-theorem C16_source_layout : Gen.layoutPinHash = [["server_salt", "bytes"], ["client_salt", "sha1"]] := by decide
+theorem C16_source_layout : Gen.layoutPinHash = [["server_salt", "bytes"], ["client_salt", "sha1"], ["ctors:Sha1::new,Sha1::new", "methods:chain_update,chain_update,chain_update,chain_update,finalize_fixed,finalize_fixed", "control:for,for,if,return", "rebound:", "tail:Some(Sha1::new().chain_update(client_salt).chain_update(sha1).finalize_fixed().into(),)"]] := by decide +kernel
 
 /-- C16: pin.rs keeps no state between calls (the hash is a function of its arguments alone) -/
-theorem C16_source_no_hidden_state : Gen.pinModuleHasNoSharedState = true := by decide
+theorem C16_source_no_hidden_state : Gen.pinModuleHasNoSharedState = true := by decide +kernel
 
 end WowSrp
